@@ -18,6 +18,10 @@
 (*     RH  porcelain.reset(mode="hard")   (update_working_tree from index) *)
 (*     ST  porcelain.stash_pop of a stash whose tree is the given tree     *)
 (*     AP  porcelain.apply_patch of the patch that adds the tree's files   *)
+(* Trees are sets of entries [n: raw name as a sequence of path elements,  *)
+(* k: regular file (content class, mode class incl. set-id / world-        *)
+(* writable bits) | symbolic link (target) | directory (children) |        *)
+(* gitlink]; an entry name may itself contain "/" (several elements).      *)
 (* The bodies are transcriptions of dulwich/index.py (build_file_from_blob,*)
 (* verify_leading_dirs, build_index_from_tree, update_working_tree and its *)
 (* _transition_to_* helpers), diff_tree.tree_changes (order of changes),   *)
@@ -270,6 +274,7 @@ Do(S, res) == IF S.r # "run" THEN S
 FileIdx(c, x) == [t |-> "f", c |-> c, x |-> x, to |-> <<>>]
 GIdx  == [t |-> "g", c |-> "", x |-> FALSE, to |-> <<>>]     \* gitlink recorded as such (build_index_from_tree)
 GdIdx == [t |-> "gd", c |-> "", x |-> FALSE, to |-> <<>>]    \* gitlink recorded with the mode of the directory
+GlIdx == [t |-> "gl", c |-> "", x |-> FALSE, to |-> <<>>]    \* gitlink recorded with the mode of a symbolic link
 LinkIdx(to)   == [t |-> "l", c |-> "", x |-> FALSE, to |-> to]
 IdxPut(I, p, v) == [q \in DOMAIN I \cup {p} |-> IF q = p THEN v ELSE I[q]]
 IdxDel(I, p) == [q \in DOMAIN I \ {p} |-> I[q]]
@@ -427,6 +432,10 @@ Nest(I) ==
 (***************************************************************************)
 (* Stash.pop of a stash commit (one parent: HEAD) whose tree is T          *)
 (***************************************************************************)
+\* index entry v has the mode and the blob of tree entry k
+SameEntry(v, k) == \/ v.t = "f" /\ k.t = "f" /\ v.c = k.c /\ k.m \in {"644", "755"} /\ v.x = (k.m = "755")
+                   \/ v.t = "l" /\ k.t = "l" /\ v.to = k.to
+                   \/ v.t = "g" /\ k.t = "g"
 StashEntry(S, ent, pr) ==
     IF S.r # "run" THEN S
     ELSE IF ~ValidPath(ent.p, pr) THEN Refused(S)
@@ -437,9 +446,12 @@ StashEntry(S, ent, pr) ==
              S2 == IF S1.r # "run" THEN S1
                    ELSE IF ent.k.t = "g" THEN (IF IsDirP(S1.F, ent.p) THEN S1 ELSE Do(S1, Mkdir(S1.F, ent.p)))
                    ELSE BuildFile(S1, ent.k, ent.p)
+             newv == IF ent.k.t = "g" THEN (IF LNode(S2.F, ent.p).t = "l" THEN GlIdx ELSE GdIdx)
+                     ELSE IdxFromFs(S2.F, ent.p, ent.k)
          IN IF S2.r # "run" THEN S2
-            ELSE IF ent.p \in DOMAIN S2.I THEN S2       \* an entry that is already staged keeps its blob
-            ELSE [S2 EXCEPT !.I = IdxPut(S2.I, ent.p, IF ent.k.t = "g" THEN GdIdx ELSE IdxFromFs(S2.F, ent.p, ent.k))]
+            \* an entry that is staged with another blob or mode keeps it; otherwise index_entry_from_stat
+            ELSE IF ent.p \in DOMAIN S2.I /\ ~SameEntry(S2.I[ent.p], ent.k) THEN S2
+            ELSE [S2 EXCEPT !.I = IdxPut(S2.I, ent.p, newv)]
 RECURSIVE StashAll(_, _, _)
 StashAll(S, ents, pr) == IF S.r # "run" \/ ents = <<>> THEN S ELSE StashAll(StashEntry(S, Head(ents), pr), Tail(ents), pr)
 StashPop(F, I, T, pr) == Done(StashAll(St(F, I), FlatSeq(T), pr))
@@ -524,6 +536,8 @@ Confined == ~esc /\ Protected(fs) = Protected(InitFS)
 UnsafeRefused == \A p \in DOMAIN fs : InWT(p) =>
                     \A i \in (Len(W) + 1)..Len(p) :
                         Unsafe(Chars[p[i]], prot) => (p[i] = ".git" /\ i = Len(p) /\ fs[p].c = "M")
+\* exploration stops where the index records a gitlink with a symbolic link's mode (not modelled further)
+Modelled == \A p \in DOMAIN idx : idx[p].t # "gl"
 TypeOK == /\ n \in 0..MaxLen /\ out.res \in {"ok", "refused", "err"} /\ esc \in BOOLEAN
 
 (***************************************************************************)
@@ -548,21 +562,24 @@ DC   == DK({E(<<"config">>, FA)})
 DH   == DK({E(<<"h">>, FB)})
 DL   == DK({E(<<"x">>, Lup)})
 DD   == DK({E(<<"e">>, DK({E(<<"x">>, FB)}))})          \* d/e/x
+DG   == DK({E(<<"x">>, GK)})                           \* d/x is a gitlink
 DLe  == DK({E(<<"e">>, LK(<<"..", "..", "od">>))})     \* d/e -> ../../od
 
-TreesOver(ents, maxE) == {T \in SUBSET ents : Cardinality(T) <= maxE /\ WellFormed(T)}
+TreesOver(ents, maxE) == {T \in ({{}} \cup {{e} : e \in ents}
+                                  \cup (IF maxE >= 2 THEN {{e1, e2} : e1 \in ents, e2 \in ents} ELSE {})) : WellFormed(T)}
 
 \* tiny: the histories of three operations
 EntsTiny == {E(<<"d">>, k) : k \in {FB, Lod, Lcfg, DA, DB}} \cup {E(<<"git~1">>, FA)}
 TreesTiny == TreesOver(EntsTiny, 1)
 TreesPatchNeg == {{E(<<"d">>, Lcfg)}, {E(<<"d">>, FB)}}
 \* core
-EntsCore == {E(<<"d">>, k) : k \in {FA, FB, Lod, Lof, Labs, Lgit, Lcfg, La, DA, DB, DC, DD, DLe}}
+EntsCore == {E(<<"d">>, k) : k \in {FA, FB, Lod, Lof, Labs, Lgit, Lcfg, La, DA, DB, DC, DD, DLe, GK}}
             \cup {E(<<"a">>, k) : k \in {FA, Ld, DA}}
             \cup {E(<<".git">>, FA), E(<<"git~1">>, FA), E(<<"d", "x">>, FA), E(<<"..", "of">>, FA)}
-TreesCore == TreesOver(EntsCore, 2)
+TreesCore == TreesOver(EntsCore, 1)
+             \cup {T \in TreesOver(EntsCore, 2) : Cardinality(T) = 2 /\ \E e \in T : e.n \in {<<"a">>, <<"git~1">>}}
 \* mid: two operations, both settings
-EntsMid == {E(<<"d">>, k) : k \in {FB, Lod, Lgit, Lcfg, DA, DB, DD, DLe}} \cup {E(<<"a">>, k) : k \in {FA, Ld}}
+EntsMid == {E(<<"d">>, k) : k \in {FB, Lod, Lgit, Lcfg, DA, DB, DD, DLe, GK}} \cup {E(<<"a">>, k) : k \in {FA, Ld}}
            \cup {E(<<"git~1">>, FA), E(<<"..", "of">>, FA)}
 TreesMid == {T \in TreesOver(EntsMid, 2) : Cardinality(T) = 2 => \E e \in T : e.n \in {<<"git~1">>}}
             \cup {{E(<<"a">>, FA), E(<<"d">>, DB)}, {E(<<"a">>, Ld), E(<<"d">>, DB)}}
@@ -570,14 +587,15 @@ TreesMid == {T \in TreesOver(EntsMid, 2) : Cardinality(T) = 2 => \E e \in T : e.
 EntsGl == {E(<<"d">>, k) : k \in {GK, FB, Lod, DA, DK({E(<<"x">>, GK)})}} \cup {E(<<"git~1">>, FA)}
 TreesGl == TreesOver(EntsGl, 1)
 \* small: three operations
-EntsSmall == {E(<<"d">>, k) : k \in {FB, Lod, Lof, Lgit, Lcfg, La, DA, DB, DC, DD, DLe}} \cup {E(<<"a">>, k) : k \in {DA}}
+EntsSmall == {E(<<"d">>, k) : k \in {FB, Lod, Lgit, Lcfg, DA, DB, DC, DD, DLe, GK}} \cup {E(<<"a">>, k) : k \in {DA}}
              \cup {E(<<"git~1">>, FA)}
 TreesSmall == {T \in TreesOver(EntsSmall, 2) : Cardinality(T) = 2 => \E e \in T : e.n = <<"a">>}
 \* full
-EntsFull == {E(<<"d">>, k) : k \in {FA, FB, FX, FN, Lod, Lof, Labs, Lgit, Lcfg, Lhk, La, DA, DB, DC, DH, DL, DD, DLe}}
+EntsFull == {E(<<"d">>, k) : k \in {FA, FB, FX, FN, Lod, Lof, Labs, Lgit, Lcfg, Lhk, La, DA, DB, DC, DH, DL, DD, DLe, GK, DG}}
             \cup {E(<<"a">>, k) : k \in {FA, FB, Ld, Lod, DA}}
             \cup {E(<<".git">>, FA), E(<<"git~1">>, FA), E(<<"d", "x">>, FA), E(<<"d", "x">>, FB)}
-TreesFull == TreesOver(EntsFull, 2)
+TreesFull == TreesOver(EntsFull, 1)
+             \cup {T \in TreesOver(EntsFull, 2) : Cardinality(T) = 2 /\ \E e \in T : e \in {E(<<"a">>, Ld), E(<<"a">>, DA), E(<<"git~1">>, FA)}}
 \* every name of the adversarial alphabet, one entry per tree, regular file and symbolic link
 NamesAdv == {<<c>> : c \in Comps \ {"p", "repo", "config", "hooks", "h", "tmp", "e", "of", "od", "ol"}}
             \cup {<<"..", "of">>, <<"..", "..", "tmp">>, <<"d", "..", "..", "of">>, <<".git", "x">>,
@@ -585,6 +603,7 @@ NamesAdv == {<<c>> : c \in Comps \ {"p", "repo", "config", "hooks", "h", "tmp", 
                   <<"", "p", "repo", ".git", "x">>, <<"d", "", "x">>, <<"d", ".", "x">>, <<"d", "x">>, <<"a", "">>,
                   <<"a", "git~1", "x">>, <<"a", ".git ", "x">>, <<"a", ".g{ZWNJ}it", "x">>}
 TreesNames == {{E(nm, k)} : nm \in NamesAdv, k \in {FB, Lof}}
+              \cup {{E(nm, DB)} : nm \in {x \in NamesAdv : Len(x) = 1}}       \* a directory of that name, e.g. .GIT/x
 
 ProtsDefault == {[ntfs |-> TRUE, hfs |-> FALSE]}
 ProtsQuick == {[ntfs |-> TRUE, hfs |-> FALSE], [ntfs |-> FALSE, hfs |-> FALSE]}
